@@ -40,6 +40,10 @@ Clauses(e, x) ==
        <<"C28.recent-engine@" \o Site(e), p.dbEngine = x.dbEngine>>,
        <<"C30.recent-runs@" \o Site(e), \A r \in RunIds : p.recentRuns[r] = x.recentRuns[r]>>,
        <<"C30.plot-logs@" \o Site(e), \A r \in RunIds : p.plotLogs[r] = x.plotLogs[r]>>,
+       \* the C30 invariant on the implementation's own database (a divergence elsewhere must not hide it)
+       <<"C30.at-most-one-recent-run-and-plot-log@" \o Site(e),
+            \A r \in RunIds : (p.recentRuns[r] > recentRuns[r] => p.recentRuns[r] <= 1)
+                             /\ (p.plotLogs[r] > plotLogs[r] => p.plotLogs[r] <= 1)>>,
        <<"C28.rows-in-own-run@" \o Site(e), \A r \in RunIds : (rowsP[r] \ rows[r]) # {} => r = x.run \/ r = run>>,
        <<"C29.rows@" \o Site(e), \A r \in RunIds : rowsP[r] = x.rows[r]>>,
        \* the C29 invariants evaluated on the implementation's own rows
